@@ -36,7 +36,7 @@ ASSUMPTIONS = [
 ]
 
 TOKEN = b"abcdefghijklmnopqrstuvwxyz0123456789-_!#$%&'*+.^`|~"
-STD_NAMES = [b"content-type", b"date", b"vary", b"link", b"etag", b"server", b"location", b"cache-control",
+STD_NAMES = [b"status-detail", b"status-uri", b"statuscode", b"statuses", b"x-status", b"statu", b"content-type", b"date", b"vary", b"link", b"etag", b"server", b"location", b"cache-control",
              b"expires", b"content-length", b"set-cookie", b"x-powered-by", b"last-modified", b"content-encoding"]
 VALUE_BYTES = [9] + list(range(32, 127)) + list(range(128, 256))
 NO_NL = [b for b in range(256) if b != 10]
@@ -100,6 +100,9 @@ def rand_headers(rng, maxn=6, with_nl=False):
     hs = []
     for _ in range(rng.randrange(maxn + 1)):
         n = rand_field(rng, with_nl)
+        if rng.random() < 0.08:
+            # names that merely START with (or resemble) the reserved name `Status`, in any case, are ordinary headers
+            n = list(rng.choice([b"Status-Detail", b"status-uri", b"STATUSCODE", b"status ", b"Statuses", b"X-Status", b"Statu", b"sTaTuS2"]))
         while reserved(n):
             n = rand_field(rng, with_nl)
         hs.append((n, rand_field(rng, with_nl)))
